@@ -2,6 +2,7 @@ package address_test
 
 import (
 	"crypto/rand"
+	"encoding/hex"
 	"testing"
 
 	"github.com/virel-project/virel-blockchain/v3/address"
@@ -82,5 +83,31 @@ func TestDelegate(t *testing.T) {
 
 	if d2.String() != d1s {
 		t.Errorf("delegate addresses do not match: %s %s", d1, d2)
+	}
+}
+
+// The first checksum byte of these addresses is 0: the leading zero byte must survive the base-36 text.
+func TestAddressZeroChecksumByte(t *testing.T) {
+	for _, c := range []struct {
+		hex string
+		pid uint64
+	}{
+		{"74e53ab90c554cc1f1d736acde67aff55007fd4b3bec", 0},
+		{"6c5a01ee3454cba227c7f400f6889a319d7121dcea27", 0},
+		{"7415f208579196feab99b9dd42f4ddeb3522253e2ca8", 111},
+		{"15f208579196feab99b9dd42f4ddeb3522253e2ca86f", 0},
+	} {
+		raw, err := hex.DecodeString(c.hex)
+		if err != nil {
+			t.Fatal(err)
+		}
+		a := address.Integrated{Addr: address.Address(raw), PaymentId: c.pid}
+		b, err := address.FromString(a.String())
+		if err != nil {
+			t.Fatalf("%s: %v", a.String(), err)
+		}
+		if a != b {
+			t.Fatalf("%s reads back as %x %d, expected %x %d", a.String(), b.Addr, b.PaymentId, a.Addr, a.PaymentId)
+		}
 	}
 }
